@@ -6,27 +6,28 @@ From TkSpec Require Import Balance_spec Equity_spec Journal_spec.
 Local Open Scope Z_scope.
 
 (* ------------------------------------------------------------------ the transactions the text denotes *)
-(* comment texts: every metadata item's lines followed by an empty comment, then the warnings *)
+(* comment texts: every metadata item's lines followed by an empty comment, then the warning
+   lines `warn` (their wording is an input of the model, like md) iff the sum is zero *)
 Definition eq_md_comments (md : list (list (list N))) : list (list N) :=
   flat_map (fun it => it ++ [[]]) md.
-Definition eq_comments (md : list (list (list N))) (e : eq_txn) : list (list N) :=
-  eq_md_comments md ++ (if e_warn e then eq_warnings else []).
+Definition eq_comments (md : list (list (list N))) (warn : list (list N)) (e : eq_txn) : list (list N) :=
+  eq_md_comments md ++ (if e_warn e then warn else []).
 
 (* header: time stamp and offset of the last transaction, no code, the description (the parser
    trims it at the end: see eq_desc_plain), no uuid / location / tags, the comments *)
-Definition eq_header (md : list (list (list N))) (e : eq_txn) : header :=
-  mkHeader (e_inst e) (e_off e) None (Some (trim_end (eq_desc e))) None None [] (eq_comments md e).
+Definition eq_header (md : list (list (list N))) (warn : list (list N)) (e : eq_txn) : header :=
+  mkHeader (e_inst e) (e_off e) None (Some (trim_end (eq_desc e))) None None [] (eq_comments md warn e).
 
 (* syntax level: postings in order (rows, then the balancing posting), each with an explicit
    amount and no comment; no amount-less last posting *)
-Definition eq_ptxn (md : list (list (list N))) (e : eq_txn) : ptxn :=
-  mkPTxn (eq_header md e) (map (fun p => (eq_raw_post p, @None (list N))) (eq_all_posts e)) None.
+Definition eq_ptxn (md : list (list (list N))) (warn : list (list N)) (e : eq_txn) : ptxn :=
+  mkPTxn (eq_header md warn e) (map (fun p => (eq_raw_post p, @None (list N))) (eq_all_posts e)) None.
 
 (* after the semantic layer *)
 Definition eqt_posting (p : eq_post) : posting :=
   mkPosting (ep_acc p) (ep_comm p) (ep_amt p) (ep_amt p) false (ep_comm p).
-Definition eq_jtxn (md : list (list (list N))) (e : eq_txn) : jtxn :=
-  mkJTxn (eq_header md e) (map (fun p => mkJPost (eqt_posting p) None) (eq_all_posts e)).
+Definition eq_jtxn (md : list (list (list N))) (warn : list (list N)) (e : eq_txn) : jtxn :=
+  mkJTxn (eq_header md warn e) (map (fun p => mkJPost (eqt_posting p) None) (eq_all_posts e)).
 
 (* the postings of loaded transactions as the balance sees them *)
 Definition jtxns_bposts (ts : list jtxn) : list bpost :=
@@ -47,10 +48,14 @@ Definition eq_txn_wf (e : eq_txn) : bool :=
   ts_ok (e_inst e) (e_off e) && eq_comm_ok (e_comm e)
   && match e_uuid e with Some u => uuid_ok u | None => true end
   && negb (is_nil (eq_all_posts e)) && forallb eq_post_wf (eq_all_posts e).
-(* metadata text lines are lines *)
+(* metadata text lines are lines: written after "   ; " each is a comment line of the grammar
+   (";" + blank + text without CR / LF; the empty text gives "   ; ") *)
 Definition md_wf (md : list (list (list N))) : bool := forallb (forallb no_eol) md.
-Definition export_wf (md : list (list (list N))) (es : list eq_txn) : bool :=
-  md_wf md && forallb eq_txn_wf es.
+(* the warning lines: the same predicate - the block is well formed iff it is well formed as the
+   lines of one metadata item *)
+Definition warn_wf (warn : list (list N)) : bool := md_wf [warn].
+Definition export_wf (md : list (list (list N))) (warn : list (list N)) (es : list eq_txn) : bool :=
+  md_wf md && warn_wf warn && forallb eq_txn_wf es.
 
 (* the description is read back unchanged iff it does not end in white space; the only way it
    could is a commodity name ending in U+1680 (an identifier character that is White_Space),
@@ -72,10 +77,18 @@ Definition amounts_fit (es : list eq_txn) : bool :=
 (* ------------------------------------------------------------------ the observation on the loaded text *)
 (* jts = the transactions load_journal yields for the export text: the equity transactions in
    canonical order, and their postings carry the selected balances of the source *)
-Definition TextCarries (eqa : acct) (ras : option (acct -> bool)) (md : list (list (list N)))
+Definition TextCarries (eqa : acct) (ras : option (acct -> bool)) (md : list (list (list N))) (warn : list (list N))
            (ts : list txn) (es : list eq_txn) (jts : list jtxn) : Prop :=
-  jts = sort_by jtxn_leb (map (eq_jtxn md) es)
+  jts = sort_by jtxn_leb (map (eq_jtxn md warn) es)
   /\ Carried eqa ras (txn_bposts ts) (jtxns_bposts jts).
+
+(* ------------------------------------------------------------------ what the comment inputs can influence *)
+(* a loaded transaction without its transaction comments (h_comments): everything else - time
+   stamp, offset, code, description, uuid, location, tags, every posting with its comment - kept.
+   T02_warn_irrelevant: md and warn reach the loaded export through this one component only. *)
+Definition hdr_no_comments (h : header) : header :=
+  mkHeader (h_inst h) (h_off h) (h_code h) (h_desc h) (h_uuid h) (h_loc h) (h_tags h) [].
+Definition jt_no_comments (t : jtxn) : jtxn := mkJTxn (hdr_no_comments (jt_hdr t)) (jt_posts t).
 
 (* ------------------------------------------------------------------ boolean oracle on an observed text *)
 (* exact equality of syntax-level transactions as the export can contain them (units without
@@ -100,16 +113,16 @@ Definition ptxn_eqb (a b : ptxn) : bool :=
 
 (* the observed text, read by the grammar model, is exactly the transactions of the export
    (an empty export: the empty text) *)
-Definition text_reads_as (cfg : pcfg) (md : list (list (list N))) (es : list eq_txn) (text : list N) : bool :=
+Definition text_reads_as (cfg : pcfg) (md : list (list (list N))) (warn : list (list N)) (es : list eq_txn) (text : list N) : bool :=
   match es with
   | [] => is_nil text
   | _ => match parse_journal cfg text with
-         | Ok pts => list_eqb ptxn_eqb pts (map (eq_ptxn md) es)
+         | Ok pts => list_eqb ptxn_eqb pts (map (eq_ptxn md warn) es)
          | Err _ => false
          end
   end.
-Definition TextReadsAs (cfg : pcfg) (md : list (list (list N))) (es : list eq_txn) (text : list N) : Prop :=
+Definition TextReadsAs (cfg : pcfg) (md : list (list (list N))) (warn : list (list N)) (es : list eq_txn) (text : list N) : Prop :=
   match es with
   | [] => text = []
-  | _ => parse_journal cfg text = Ok (map (eq_ptxn md) es)
+  | _ => parse_journal cfg text = Ok (map (eq_ptxn md warn) es)
   end.
